@@ -56,36 +56,14 @@ Theorem C19_wireshark_records_width_order_sign :
 Proof. exact ws_records. Qed.
 Print Assumptions C19_wireshark_records_width_order_sign.
 
-(* ---- FIBEX: BIT-POSITION (fixed writer: position of the least significant bit), IS-HIGH-LOW-BYTE-ORDER ---- *)
+(* ---- FIBEX: BIT-POSITION = get_startbit(bit_numbering=1), IS-HIGH-LOW-BYTE-ORDER, read with the convention of
+        canmatrix's own FIBEX importer (Intel: LSB position; Motorola: DBC-style position of the MSB) ---- *)
+(* signal instances of a frame without multiplexer, and the SWITCH of a multiplexer (fix
+   C19_fibex_switch_position writes it with the same expression): every placement, width, byte order *)
 Theorem C19_fibex_selects_signal_bits :
   forall s, fibex_positions (fibex_emit s) = spec_positions s.
 Proof. exact fibex_selects. Qed.
 Print Assumptions C19_fibex_selects_signal_bits.
-
-(* multiplexed frames: a signal of the dynamic or static part is written relative to the start p of its part's
-   segment (fibex_emit_in p) and read back as segment position + relative position: for every p *)
-Theorem C19_fibex_segment_selects_signal_bits :
-  forall p s, fibex_positions (fibex_in_frame p (fibex_emit_in p s)) = spec_positions s.
-Proof. exact fibex_segment_selects. Qed.
-Print Assumptions C19_fibex_segment_selects_signal_bits.
-
-(* the segment the writer computes over the signals of a part (whole bytes, seg_range mirrors
-   get_multiplexing_parts_infos) contains every bit of every signal of the part: no signal instance leaves
-   the PDU it is placed in, whatever the frame length *)
-Theorem C19_fibex_segment_contains_its_signals :
-  forall sigs s j, Forall sig_ok sigs -> In s sigs -> In j (spec_positions s) ->
-    fst (seg_range (-1, -1) sigs) <= j < snd (seg_range (-1, -1) sigs).
-Proof. exact fibex_segment_contains. Qed.
-Print Assumptions C19_fibex_segment_contains_its_signals.
-
-(* the writer before fix C19_fibex_bit_position wrote the position of the MSB for Motorola signals: a 2-bit
-   Motorola signal on bits 7..6 of byte 1 got BIT-POSITION 15, which FIBEX reads as LSB = bit 7 of byte 1 and
-   MSB = bit 0 of byte 0 (positions 7, 8 instead of 8, 9) *)
-Theorem C19_fibex_msb_position_refuted :
-  exists s, inside 16 s = true /\
-            fibex_positions (fibex_emit_with false s) = [7; 8] /\ spec_positions s = [8; 9].
-Proof. exists (mkSignal 1 8 2 false false false). vm_compute. repeat split. Qed.
-Print Assumptions C19_fibex_msb_position_refuted.
 
 Theorem C19_fibex_records_width_order_sign :
   forall s, 1 <= s_size s <= 64 ->
@@ -94,6 +72,37 @@ Theorem C19_fibex_records_width_order_sign :
     s_size s <= fx_width (fibex_emit s).
 Proof. exact fibex_records. Qed.
 Print Assumptions C19_fibex_records_width_order_sign.
+
+(* multiplexed frames (KNOWN FINDING fibex-mux-segment / fibex-mux-pdu-range): the signals of the dynamic and
+   static part are written with frame positions into PDUs placed at SEGMENT-POSITION p.  Read as p + position,
+   they select the signal's bits exactly when p = 0 ... *)
+Theorem C19_fibex_segment_selects_iff_segment_at_0 :
+  forall p s, 1 <= s_size s ->
+    (fibex_positions (fibex_in_frame p (fibex_emit s)) = spec_positions s <-> p = 0).
+Proof. exact fibex_segment_iff. Qed.
+Print Assumptions C19_fibex_segment_selects_iff_segment_at_0.
+
+(* ... so the property holds for the parts whose computed segment (seg_range mirrors
+   get_multiplexing_parts_infos) starts at bit 0 ... *)
+Theorem C19_fibex_mux_selects_signal_bits_partial :
+  forall sigs s, fst (seg_range (-1, -1) sigs) = 0 ->
+    fibex_positions (fibex_in_frame (fst (seg_range (-1, -1) sigs)) (fibex_emit s)) = spec_positions s.
+Proof. exact fibex_mux_partial. Qed.
+Print Assumptions C19_fibex_mux_selects_signal_bits_partial.
+
+(* ... and fails otherwise: a static part holding one 9-bit Intel signal at bit 9 of a 3-byte frame gets the
+   segment [9, 18) (a 2-byte PDU) and BIT-POSITION 9 inside it: read at 9 + 9 = 18 (positions 29..31, 16..21
+   instead of 22, 23, 8..14), and the instance ends at bit 18 of a PDU that has 9 (16 with padding) bits *)
+Theorem C19_fibex_mux_selects_signal_bits_refuted :
+  exists sigs s, In s sigs /\ inside 24 s = true /\
+    seg_range (-1, -1) sigs = (9, 18) /\ fx_pos (fibex_emit s) + fx_len (fibex_emit s) = 18 /\
+    fibex_positions (fibex_in_frame 9 (fibex_emit s)) = [29; 30; 31; 16; 17; 18; 19; 20; 21] /\
+    spec_positions s = [22; 23; 8; 9; 10; 11; 12; 13; 14].
+Proof.
+  exists [mkSignal 1 9 9 true true false], (mkSignal 1 9 9 true true false).
+  split; [left; reflexivity|]. vm_compute. repeat split.
+Qed.
+Print Assumptions C19_fibex_mux_selects_signal_bits_refuted.
 
 (* ---- CSV: byte/bit columns for each xlsMotorolaBitFormat (0 msb, 1 msbreverse, other lsb) ---- *)
 Theorem C19_csv_selects_signal_bits :
@@ -132,7 +141,7 @@ Example C19_example :
   spec_positions m = [5; 6; 7; 8; 9; 10; 11; 12; 13; 14; 15] /\
   spec_positions i = [18; 19; 20; 21; 22; 23; 8; 9; 10; 11; 12; 13] /\
   ws_emit 3 i = mkWs true 2 12 None /\ scapy_emit m = mkScapy 2 11 true 1 /\
-  fibex_emit m = mkFx 8 true 11 1 16 /\ csv_emit 1 m = mkCsv 1 5 11 true true /\
-  seg_range (-1, -1) [i] = (8, 24) /\ fibex_emit_in 8 i = mkFx 2 false 12 0 16 /\
+  fibex_emit m = mkFx 2 true 11 1 16 /\ csv_emit 1 m = mkCsv 1 5 11 true true /\
+  seg_range (-1, -1) [i; m] = (5, 22) /\
   ws_read [0xA5; 0x7F; 0x80] (ws_emit 3 m) = Some (-641).
 Proof. vm_compute. repeat split. Qed.
